@@ -38,6 +38,10 @@ def shards(tier, seed):
 	                env={'OMP_NUM_THREADS': '8'}))
 	out.append(dict(name='tsan-cfg', kind='tsan', sub=600, ncoll=3 if tier == 'quick' else 8, nconf=25 if tier == 'quick' else 80, sanitizer='tsan',
 	                env={'OMP_NUM_THREADS': '8'}))
+	for s_ in out:
+		if s_.get('kind') in ['cfg'] and not s_.get('sanitizer'):
+			s_['contracts'] = ['C05', 'C20']
+	out.append(dict(name='suite-contracts', kind='suite-contracts', which=['C05', 'C20'], tests=['tests/test_metric.py']))
 	return out
 
 
